@@ -41,8 +41,8 @@ import mdpax.solvers as S
 from mdpax.problems import Forest
 from mdpax.problems.forest import ForestConfig
 from mdpax.problems.perishable_inventory.de_moor_single_product import DeMoorSingleProductPerishable as DM, DeMoorSingleProductPerishableConfig as DMC
-SOLV = {"ValueIteration": dict(gamma=0.9, epsilon=1e-3), "PolicyIteration": dict(gamma=0.9, epsilon=1e-3, max_eval_iter=30), "RelativeValueIteration": dict(epsilon=1e-3),
-        "PeriodicValueIteration": dict(gamma=0.9, epsilon=1e-3, period=2), "SemiAsyncValueIteration": dict(gamma=0.9, epsilon=1e-3, max_batch_size=4)}
+SOLV = {"ValueIteration": dict(gamma=0.9, epsilon=1e-3), "PolicyIteration": dict(gamma=0.9, epsilon=1e-3, max_eval_iter=3, convergence_test="max_diff", reset_values_for_each_policy_eval=True), "RelativeValueIteration": dict(epsilon=1e-3),
+        "PeriodicValueIteration": dict(gamma=0.9, epsilon=1e-3, period=3, clear_value_history_on_convergence=False), "SemiAsyncValueIteration": dict(gamma=0.9, epsilon=1e-3, max_batch_size=2, shuffle_states=True, random_seed=7)}     # non-default options on purpose
 PROB = {"forest": (Forest, ForestConfig, dict(S=6, p=0.2)), "de_moor": (DM, DMC, dict(max_demand=3, max_useful_life=2, lead_time=1, max_order_quantity=2))}
 def res(st): return (int(st.info.iteration), np.asarray(st.values), np.asarray(st.policy))
 # ---------------------------------------------------------------- three routes behave identically
